@@ -233,6 +233,10 @@ theorem sorted_two {store : List Res} {ps v : List Premise} (h : sortPremsByDelt
 local macro "pass_simp" : tactic =>
   `(tactic| simp [fixOne, bind, Except.bind, Except.map, pure, Except.pure, PyRt.unpack2, *])
 
+/-- `pass_simp` for a list of unknown length: an `if` on the count of premises is decided by `omega` -/
+local macro "pass_simp_count" : tactic =>
+  `(tactic| simp (disch := omega) [fixOne, bind, Except.bind, Except.map, pure, Except.pure, PyRt.unpack2, if_pos, if_neg, *])
+
 /-- case analysis along the control flow of the `prem_count == 2` branch -/
 local macro "two_cases" a:term "," b:term "," store:term "," err:term : tactic => `(tactic| (
   rcases ha : Premise.baitOverlap $a $store with ea | fo
@@ -264,7 +268,7 @@ local macro "sort_cases" ps:term "," store:term "," err:term "," fin:tacticSeq :
 theorem make_fixes_tie (store : List Res) (prems : List (Key × List Premise)) (err : Int) :
     Gen.Imp.OverhangResolver_make_fixes_imp store prems err = (prems.map (·.2)).foldlM (fixOne err) (store, []) := by
   unfold Gen.Imp.OverhangResolver_make_fixes_imp
-  simp only []
+  try simp only []
   rw [forIn_of_next (f := fixOne err)]
   · cases List.foldlM (fixOne err) (store, []) (prems.map (·.2)) <;> rfl
   · intro ps s
@@ -275,15 +279,9 @@ theorem make_fixes_tie (store : List Res) (prems : List (Key × List Premise)) (
     | [a] => pass_simp
     | [a, b] => sort_cases [a, b], store, err, (two_cases a, b, store, err)
     | a :: b :: c :: r =>
-      have hc2 : ¬ (Int.ofNat (a :: b :: c :: r).length = 2) := by
-        simp only [List.length_cons, Int.ofNat_eq_natCast]; omega
-      have hc1 : Int.ofNat (a :: b :: c :: r).length > 1 := by
-        simp only [List.length_cons, Int.ofNat_eq_natCast]; omega
-      -- the same two facts in `simp`'s normal form, should the translator spell `len(prem_list)` differently
-      have n2 : ¬ ((r.length : Int) + 1 + 1 + 1 = 2) := by omega
-      have n1 : (1 : Int) < (r.length : Int) + 1 + 1 + 1 := by omega
-      try simp only [hc2, hc1, decide_false, decide_true, Bool.false_eq_true, if_false, if_true]
-      sort_cases (a :: b :: c :: r), store, err, pass_simp
+      -- three or more premises: whatever way the source spells its tests on the count (`prem_count == 2`, `len(prem_list) > 1`,
+      -- `prem_count >= 2`, …), they are linear facts about `r.length + 3` and `omega` decides them
+      sort_cases (a :: b :: c :: r), store, err, pass_simp_count
 
 /-! ### 7. premise lists are never empty (`setdefault(fk, []).append(premise)` never leaves one) -/
 
